@@ -185,11 +185,27 @@ func (w *World) probeFaults(ev Event) bool {
 		return w.applyInner(ev, nil)
 	}
 	points := 0
+	total := 0
+	for kind := 0; kind < NumDepKinds; kind++ {
+		total += ex.Deps[kind]
+	}
+	// very long calls (hundreds of tokens in one multi-transfer): every stride-th point, so that the
+	// enumeration stays bounded (all points of every ordinary call are still enumerated)
+	stride := 1
+	if total > 240 {
+		stride = (total + 119) / 120
+		w.Stats.Probes["fault-enumeration-sampled-long-call"]++
+	}
+	idx := 0
 	for kind := 0; kind < NumDepKinds; kind++ {
 		if !IsHardDep(kind) && kind != DepTrieRead && kind != DepPauseLookup {
 			continue
 		}
 		for k := 1; k <= ex.Deps[kind]; k++ {
+			idx++
+			if idx%stride != 0 {
+				continue
+			}
 			if ev.Tx != nil {
 				mm := w.MsgOfTx(ev.N, ev.Tx)
 				w.Run(mm, []int{kind, k})
